@@ -451,28 +451,34 @@ def _fold_statement_function(fn, body: list[ast.stmt], refs: list[ast.AST], pare
         blk[i:i + 1] = spliced or [ast.copy_location(ast.Pass(), stmt)]
 
 
+def _yield_block(stmts: list[ast.stmt], is_yield) -> tuple[list[ast.stmt], int, list[ast.stmt]] | None:
+    """The block that holds the `yield` statement, its index there, and the chain of enclosing statements (outermost first).  The yield may sit at the top level or nested in
+    the bodies of `try` / `with` / `async with` statements (the shapes a context manager is written in); not inside loops, branches, handlers or finally blocks."""
+    for i, st in enumerate(stmts):
+        if isinstance(st, ast.Expr) and is_yield(st.value):
+            return stmts, i, []
+        if isinstance(st, (ast.Try, ast.With, ast.AsyncWith)):
+            r = _yield_block(st.body, is_yield)
+            if r is not None:
+                return r[0], r[1], [st] + r[2]
+    return None
+
+
 def _fold_context_manager(fn, body: list[ast.stmt], refs: list[ast.AST], parents, is_method: bool, static: bool) -> None:
-    """`with helper(args) [as v]: BODY` for a generator-based context manager with a single top-level `yield`:
+    """`with helper(args) [as v]: BODY` for a generator-based context manager with a single `yield` statement:
         pre; yield; post                       ->  pre; BODY; post                 (post only runs on normal completion: exactly the generator semantics)
         pre; try: a; yield; b  [except..] finally: f   ->  pre; try: a; BODY; b [except..] finally: f
+        try: a; with x as f: yield f  except E: h      ->  try: a; with x as f: BODY  except E: h
+    An exception raised by BODY is thrown into the generator at the yield, so an enclosing handler of the generator handles it: the spliced form says the same.
+    One thing differs and is written out: a handler that swallows an exception raised BEFORE the yield leaves the generator finished without having yielded, which contextlib
+    turns into RuntimeError("generator didn't yield") at the `with` statement.  A flag records whether the yield was reached; after the outermost enclosing `try` that has
+    handlers, `if not <flag>: raise RuntimeError(..)` states it.
     """
     yields = [n for n in _own_walk(fn) if isinstance(n, ast.Yield)]
     if len(yields) != 1:
         raise NotInlinable('context manager without exactly one yield')
-
-    def find(stmts):
-        for i, st in enumerate(stmts):
-            if isinstance(st, ast.Expr) and st.value is yields[0]:
-                return i, None
-            if isinstance(st, ast.Try):
-                for j, s2 in enumerate(st.body):
-                    if isinstance(s2, ast.Expr) and s2.value is yields[0]:
-                        return i, j
-        return None
-
-    loc = find(body)
-    if loc is None:
-        raise NotInlinable('yield is not a top-level statement (or directly inside a top-level try)')
+    if _yield_block(body, lambda v: v is yields[0]) is None:
+        raise NotInlinable('yield is not a statement at the top level or nested in try / with bodies only')
     is_async = isinstance(fn, ast.AsyncFunctionDef)
     sites = []
     for r in refs:
@@ -490,36 +496,39 @@ def _fold_context_manager(fn, body: list[ast.stmt], refs: list[ast.AST], parents
     for call, item, w, blk in sites:
         mapping, prelude = _bind(fn, call, is_method, static)
         new_body = [_Subst(mapping, {}).visit(copy.deepcopy(s)) for s in body]
-        i, j = find_in_copy(new_body)
+        yb = _yield_block(new_body, lambda v: isinstance(v, ast.Yield))
+        if yb is None:
+            raise NotInlinable('yield lost')
+        holder, idx, chain = yb
         bind = []
         if item.optional_vars is not None:
-            yv = yield_value(new_body, i, j)
+            yv = holder[idx].value.value
             bind = [ast.copy_location(ast.Assign(targets=[copy.deepcopy(item.optional_vars)], value=yv if yv is not None else ast.Constant(value=None)), w)]
-        inner = bind + list(w.body)
-        if j is None:
-            spliced = prelude + new_body[:i] + inner + new_body[i + 1:]
-        else:
-            tr = new_body[i]
-            tr.body = tr.body[:j] + inner + tr.body[j + 1:]
-            spliced = prelude + new_body
+        swallowing = [st for st in chain if isinstance(st, ast.Try) and st.handlers]
+        pre: list[ast.stmt] = []
+        mark: list[ast.stmt] = []
+        if swallowing:
+            _COUNTER[0] += 1
+            flag = f'__inl_yielded_{_COUNTER[0]}'
+            pre = [ast.copy_location(ast.Assign(targets=[ast.Name(id=flag, ctx=ast.Store())], value=ast.Constant(value=False)), w)]
+            mark = [ast.copy_location(ast.Assign(targets=[ast.Name(id=flag, ctx=ast.Store())], value=ast.Constant(value=True)), w)]
+            outer = swallowing[0]
+            # find the block that holds the outermost swallowing try and put the check right after it
+            def place(stmts: list[ast.stmt]) -> bool:
+                for i_, st in enumerate(stmts):
+                    if st is outer:
+                        chk = ast.If(test=ast.UnaryOp(op=ast.Not(), operand=ast.Name(id=flag, ctx=ast.Load())),
+                                     body=[ast.Raise(exc=ast.Call(func=ast.Name(id='RuntimeError', ctx=ast.Load()), args=[ast.Constant(value="generator didn't yield")], keywords=[]), cause=None)], orelse=[])
+                        stmts.insert(i_ + 1, ast.copy_location(chk, w))
+                        return True
+                    if isinstance(st, (ast.Try, ast.With, ast.AsyncWith)) and place(st.body):
+                        return True
+                return False
+            place(new_body)
+        holder[idx:idx + 1] = mark + bind + list(w.body)
+        spliced = prelude + pre + new_body
         k = next(x for x, st in enumerate(blk) if st is w)
         blk[k:k + 1] = spliced
-
-
-def find_in_copy(stmts):
-    for i, st in enumerate(stmts):
-        if isinstance(st, ast.Expr) and isinstance(st.value, ast.Yield):
-            return i, None
-        if isinstance(st, ast.Try):
-            for j, s2 in enumerate(st.body):
-                if isinstance(s2, ast.Expr) and isinstance(s2.value, ast.Yield):
-                    return i, j
-    raise NotInlinable('yield lost')
-
-
-def yield_value(stmts, i, j):
-    y = stmts[i].value if j is None else stmts[i].body[j].value
-    return y.value
 
 
 _COUNTER = [0]
